@@ -7,7 +7,13 @@ PROTOS = ['ffow', 'savage2', 'jc2m', 'mindustry']
 
 
 def more(tier, seed, w, v, lay, tp):
-    return [], []
+    """The Ship, Battalion 1944 (derived from the Valve response) and Eco (real loopback HTTP server): GameMaps.tla tables"""
+    quick = tier != "thorough"
+    m = f"{w}/maps.ndjson"
+    g = tlc_gen("GameMaps.tla", "MC_GameMaps.cfg", "MAP", m, name="c07_maps")
+    r = vhr(["gamemaps", "--layouts", lay, "--templates", tp, "--in", m], 60 if quick else 3000, seed, tier, name="c07m")
+    v.add_report(r, "derived games")
+    return [r], [g]
 
 
 def run(tier, seed):
